@@ -1024,6 +1024,13 @@ impl EndpointInner {
 
         let runtime = Arc::new(Runtime::new(secret_key.public()));
 
+        #[cfg(feature = "verif-hooks")]
+        crate::verif_hooks::transports::register(
+            secret_key.public(),
+            &sock,
+            transports.create_sender(),
+        );
+
         let endpoint = noq::Endpoint::new_with_abstract_socket(
             endpoint_config,
             Some(server_config),
